@@ -59,6 +59,28 @@ type PointRec struct {
 	Chosen         int   // index into Enabled
 	RunningEnabled bool  // the previously running thread is Enabled[0]
 	Op             string
+	// sleep-set mode only:
+	Sleep []int          // thread ids asleep before the choice
+	Foot  map[int][]Acc  // footprint of every enabled thread's pending transition
+}
+
+// Acc is one access of a transition's footprint: the object of the pending operation plus every lock-like object the
+// thread holds while it performs the step (under data-race freedom everything a step touches is guarded by those).
+type Acc struct {
+	Obj   string
+	Write bool
+}
+
+// Independent reports whether two footprints commute: no common object with a write on either side.
+func Independent(a, b []Acc) bool {
+	for _, x := range a {
+		for _, y := range b {
+			if x.Obj == y.Obj && (x.Write || y.Write) {
+				return false
+			}
+		}
+	}
+	return true
 }
 
 // Exec is one execution.
@@ -82,6 +104,12 @@ type Exec struct {
 	Err      error    // infrastructure error (divergence, deadlock)
 	Deadlock bool
 	maxSteps int
+	// sleep-set mode
+	sleepMode    bool
+	sleepInit    []int
+	sleep        map[int]bool
+	held         map[int]map[any]bool // thread id -> object -> held for writing
+	SleepBlocked bool                 // every enabled transition was asleep: the execution is redundant and was cut
 }
 
 var (
@@ -120,6 +148,7 @@ func newExec(prefix []int, expect [][]int) *Exec {
 		objNames: map[any]string{},
 		Horizon:  24 * time.Hour,
 		maxSteps: 100000,
+		held:     map[int]map[any]bool{},
 	}
 }
 
@@ -215,6 +244,55 @@ func point(op *pendingOp) {
 	}
 }
 
+// Acquired / Released are called by the lock-like shims (mutex, rwmutex, pooled connection) after the operation took
+// effect, so that the explorer knows what a thread holds while it performs a step.
+func Acquired(obj any, write bool) {
+	x := cur
+	if x == nil || !active.Load() {
+		return
+	}
+	g := goid()
+	x.mu.Lock()
+	if t := x.byGoid[g]; t != nil {
+		if x.held[t.id] == nil {
+			x.held[t.id] = map[any]bool{}
+		}
+		x.held[t.id][obj] = write
+	}
+	x.mu.Unlock()
+}
+
+func Released(obj any) {
+	x := cur
+	if x == nil || !active.Load() {
+		return
+	}
+	g := goid()
+	x.mu.Lock()
+	if t := x.byGoid[g]; t != nil {
+		delete(x.held[t.id], obj)
+	} else {
+		// released by another goroutine than the acquirer (legal for mutexes): drop it wherever it is held
+		for _, h := range x.held {
+			delete(h, obj)
+		}
+	}
+	x.mu.Unlock()
+}
+
+func (x *Exec) footprint(t *thread) []Acc {
+	op := t.pending
+	var out []Acc
+	if op.kind == OpAdvance {
+		return []Acc{{Obj: "*", Write: true}}
+	}
+	out = append(out, Acc{Obj: x.objName(op), Write: op.write}, Acc{Obj: "*", Write: false})
+	for o, w := range x.held[t.id] {
+		out = append(out, Acc{Obj: x.objName(&pendingOp{obj: o}), Write: w})
+	}
+	return out
+}
+
 // Advance is called by a harness thread: the virtual clock moves forward by d
 // as one atomic scheduler action (timers that become due fire and their
 // goroutines run to their next point).
@@ -306,6 +384,39 @@ func (x *Exec) Run() {
 		}
 		step := len(x.Trace)
 		choice := 0
+		var sleepNow []int
+		var foot map[int][]Acc
+		if x.sleepMode {
+			if step == len(x.prefix) {
+				x.sleep = map[int]bool{}
+				for _, id := range x.sleepInit {
+					x.sleep[id] = true
+				}
+			}
+			foot = map[int][]Acc{}
+			x.mu.Lock()
+			for _, t := range en {
+				foot[t.id] = x.footprint(t)
+			}
+			x.mu.Unlock()
+			if step >= len(x.prefix) {
+				for id := range x.sleep {
+					sleepNow = append(sleepNow, id)
+				}
+				sort.Ints(sleepNow)
+				choice = -1
+				for i, t := range en {
+					if !x.sleep[t.id] {
+						choice = i
+						break
+					}
+				}
+				if choice < 0 {
+					x.SleepBlocked = true
+					return
+				}
+			}
+		}
 		if step < len(x.prefix) {
 			choice = x.prefix[step]
 			if choice >= len(en) {
@@ -320,7 +431,15 @@ func (x *Exec) Run() {
 		t := en[choice]
 		op := t.pending
 		x.Trace = append(x.Trace, PointRec{Enabled: ids, Chosen: choice, RunningEnabled: runningEnabled,
-			Op: fmt.Sprintf("t%d:%s:%s", t.id, op.kind, x.objName(op))})
+			Op: fmt.Sprintf("t%d:%s:%s", t.id, op.kind, x.objName(op)), Sleep: sleepNow, Foot: foot})
+		if x.sleepMode && step >= len(x.prefix) {
+			// transitions that stay asleep: those independent of the one taken
+			for id := range x.sleep {
+				if id == t.id || foot[id] == nil || !Independent(foot[id], foot[t.id]) {
+					delete(x.sleep, id)
+				}
+			}
+		}
 		x.running = t.id
 		x.mu.Lock()
 		t.pending = nil
